@@ -26,17 +26,17 @@ def build(features=None, name='flagged'):
     FH = 'impl<C: Component, T: UnprotectedStorage<C>> UnprotectedStorage<C> for FlaggedStorage<C, T>'
     u.groups['impl_flagged'] = dict(header=FH, pre='flagged/impl_flagged.rs', private=False)
     TRAIT = lambda m, labels: [E('trait.%s.%s' % (m, l), 'inherited postcondition of UnprotectedStorage::%s (%s)' % (m, l), p) for (l, p) in labels]
-    for (m, labels) in [('clean', [('empty', 'C04'), ('events', 'C12')]),
+    for (m, labels) in [('clean', [('empty', 'C04'), ('wf', 'C04'), ('events', 'C12')]),
                         ('get', [('val', 'C04')]),
-                        ('get_mut', [('val', 'C04'), ('frame', 'C04'), ('events', 'C12')]),
-                        ('insert', [('val', 'C04'), ('frame', 'C04'), ('events', 'C12')]),
-                        ('remove', [('val', 'C04'), ('frame', 'C04'), ('events', 'C12')])]:
+                        ('get_mut', [('val', 'C04'), ('wf', 'C04'), ('frame', 'C04'), ('events', 'C12')]),
+                        ('insert', [('wf', 'C04'), ('val', 'C04'), ('frame', 'C04'), ('events', 'C12')]),
+                        ('remove', [('val', 'C04'), ('wf', 'C04'), ('frame', 'C04'), ('events', 'C12')])]:
         u.fn(FL, [FH, 'fn ' + m], props='C12 C04', group='impl_flagged', key='FlaggedStorage::' + m,
              rules=[('N8', r"<T as UnprotectedStorage<C>>::AccessMut<'_>", '&mut C')],
              hint_obligations=TRAIT(m, labels))
     # an override of the trait's default `drop` (absent on the pinned tree) would have to meet the trait's drop contract
     u.fn(FL, [FH, 'fn drop'], props='C12 C04 C05', group='impl_flagged', key='FlaggedStorage::drop', optional=True,
-         hint_obligations=TRAIT('drop', [('gone', 'C04'), ('frame', 'C04'), ('events', 'C12')]))
+         hint_obligations=TRAIT('drop', [('gone', 'C04'), ('wf', 'C04'), ('frame', 'C04'), ('events', 'C12')]))
     # ---------------- DerefFlaggedStorage (deferred variant): its mutable access is the FlaggedAccessMut wrapper, so it cannot
     # implement the N8-simplified trait; its methods are emitted as inherent methods (N12) with the same clauses written out
     u.struct(DF, ['struct DerefFlaggedStorage'], rules=[('N10', r'T = DenseVecStorage<C>', 'T')])
@@ -48,7 +48,7 @@ def build(features=None, name='flagged'):
     SAME_EMIT = 'final(self).emits() == old(self).emits()'
     u.fn(DF, [DH, 'fn clean'], props='C12 C04', impl_header=DI, key='DerefFlaggedStorage::clean',
          requires=[E('mask', 'forall|i: Index| has.bview().contains(i) <==> old(self).storage.has(i)')],
-         ensures=[E('empty', 'forall|i: Index| !final(self).storage.has(i)', 'C04'), E('events', 'final(self).channel@ == old(self).channel@ && ' + SAME_EMIT, 'C12')])
+         ensures=[E('empty', 'forall|i: Index| !final(self).storage.has(i)', 'C04'), E('wf', 'old(self).storage.us_wf() ==> final(self).storage.us_wf()', 'C04'), E('events', 'final(self).channel@ == old(self).channel@ && ' + SAME_EMIT, 'C12')])
     u.fn(DF, [DH, 'fn get'], ret='r', props='C12 C04', impl_header=DI, key='DerefFlaggedStorage::get',
          requires=[E('has', 'self.storage.has(id)')],
          ensures=[E('val', '*r == self.storage.val(id)', 'C04')])
@@ -59,16 +59,17 @@ def build(features=None, name='flagged'):
                   E('wrapper', 'r.emit == old(self).emits() && r.id == id', 'C12'),
                   E('val', '*r.access == old(self).storage.val(id) && final(self).storage.val(id) == *final(r.access)', 'C04'),
                   E('frame', '(forall|j: Index| #![trigger final(self).storage.has(j)] final(self).storage.has(j) == old(self).storage.has(j)) && (forall|j: Index| #![trigger final(self).storage.val(j)] j != id ==> final(self).storage.val(j) == old(self).storage.val(j))', 'C04'),
+                  E('wf', 'old(self).storage.us_wf() ==> final(self).storage.us_wf()', 'C04'),
                   E('emit_same', SAME_EMIT, 'C12')])
     for (m, ev, post) in [('insert', 'Inserted', [E('val', 'final(self).storage.has(id) && final(self).storage.val(id) == comp', 'C04')]),
                           ('remove', 'Removed', [E('val', 'r == old(self).storage.val(id) && !final(self).storage.has(id)', 'C04')])]:
         u.fn(DF, [DH, 'fn ' + m], ret=('r' if m == 'remove' else None), props='C12 C04', impl_header=DI, key='DerefFlaggedStorage::' + m,
-             requires=[E('pre', ('!' if m == 'insert' else '') + 'old(self).storage.has(id)')],
-             ensures=post + [E('frame', '(forall|j: Index| #![trigger final(self).storage.has(j)] j != id ==> final(self).storage.has(j) == old(self).storage.has(j)) && (forall|j: Index| #![trigger final(self).storage.val(j)] j != id ==> final(self).storage.val(j) == old(self).storage.val(j))', 'C04'),
+             requires=[E('pre', ('!' if m == 'insert' else '') + 'old(self).storage.has(id)')] + ([E('wf', 'old(self).storage.us_wf()')] if m == 'insert' else []),
+             ensures=post + [E('wf', 'final(self).storage.us_wf()' if m == 'insert' else 'old(self).storage.us_wf() ==> final(self).storage.us_wf()', 'C04'), E('frame', '(forall|j: Index| #![trigger final(self).storage.has(j)] j != id ==> final(self).storage.has(j) == old(self).storage.has(j)) && (forall|j: Index| #![trigger final(self).storage.val(j)] j != id ==> final(self).storage.val(j) == old(self).storage.val(j))', 'C04'),
                              E('events', 'final(self).channel@ == old(self).channel@ + one_if(old(self).emits(), ComponentEvent::%s(id)) && %s' % (ev, SAME_EMIT), 'C12')])
     u.fn(DF, [DH, 'fn drop'], props='C12 C04 C05', impl_header=DI, key='DerefFlaggedStorage::drop', optional=True,
          requires=[E('pre', 'old(self).storage.has(id)')],
-         ensures=[E('gone', '!final(self).storage.has(id)', 'C04'),
+         ensures=[E('gone', '!final(self).storage.has(id)', 'C04'), E('wf', 'old(self).storage.us_wf() ==> final(self).storage.us_wf()', 'C04'),
                   E('frame', '(forall|j: Index| #![trigger final(self).storage.has(j)] j != id ==> final(self).storage.has(j) == old(self).storage.has(j)) && (forall|j: Index| #![trigger final(self).storage.val(j)] j != id ==> final(self).storage.val(j) == old(self).storage.val(j))', 'C04'),
                   E('events', 'final(self).channel@ == old(self).channel@ + one_if(old(self).emits(), ComponentEvent::Removed(id)) && ' + SAME_EMIT, 'C12')])
     # the deferred Modified event: exactly one per mutable dereference of the returned access, none for a shared one
